@@ -302,12 +302,13 @@ func init() {
 }
 
 type patGen struct {
-	r       *hx.Rand
-	names   []string
-	fset    *token.FileSet
-	bound   map[string]string // name -> source text of the subtree it was bound to on the current path (approximate)
-	noMut   int               // >0: produce the exact pattern
-	allowDB bool              // allow double binding with sub-pattern (malformed stream)
+	r        *hx.Rand
+	names    []string
+	fset     *token.FileSet
+	bound    map[string]string // name -> source text of the subtree it was bound to on the current path (approximate)
+	nilBound []string          // names bound at an absent (nil) child on the current path
+	noMut    int               // >0: produce the exact pattern
+	allowDB  bool              // allow double binding with sub-pattern (malformed stream)
 }
 
 func (g *patGen) name() string { return g.names[g.r.Intn(len(g.names))] }
@@ -341,9 +342,22 @@ func isNilValue(v any) bool {
 }
 
 // of returns a pattern for the Go value v (a field value or a node) with random mutations.
+// absent: the pattern for an absent child; sometimes a name (which binds nil) that a later, present child reuses
+func (g *patGen) absent() *P {
+	if g.noMut == 0 && g.r.Chance(25) {
+		name := g.name()
+		if _, dup := g.bound[name]; !dup {
+			g.nilBound = append(g.nilBound, name)
+			g.bound[name] = "<absent>"
+			return &P{Kind: "bind", Name: name, Explicit: g.r.Chance(30)}
+		}
+	}
+	return &P{Kind: "nil"}
+}
+
 func (g *patGen) of(v any, depth int) *P {
 	if v == nil {
-		return &P{Kind: "nil"}
+		return g.absent()
 	}
 	rv := reflect.ValueOf(v)
 	switch rv.Kind() {
@@ -406,7 +420,7 @@ func (g *patGen) of(v any, depth int) *P {
 		return &P{Kind: "list", Sub: elems}
 	case reflect.Pointer:
 		if rv.IsNil() {
-			return &P{Kind: "nil"}
+			return g.absent()
 		}
 		n, ok := v.(ast.Node)
 		if !ok {
@@ -474,6 +488,10 @@ func (g *patGen) ofNode(n ast.Node, depth int) *P {
 		return build()
 	}
 	src := nodeSrc(g.fset, n)
+	// reuse, at a present child, a name that was bound at an absent one (the recall must fail)
+	if depth > 0 && len(g.nilBound) > 0 && g.r.Chance(15) {
+		return &P{Kind: "bind", Name: g.nilBound[g.r.Intn(len(g.nilBound))], Explicit: g.r.Chance(30)}
+	}
 	// recall an earlier binding of an equal subtree
 	if depth > 0 {
 		for name, s := range g.bound {
